@@ -107,6 +107,9 @@ type Rec struct {
 	IP  map[string]net.IP
 	// Omit leaves elements out of the record altogether (a narrower template layout).
 	Omit map[string]bool
+	// Rotate moves the first Rotate elements to the end: the same fields in another order (template ids are
+	// per exporter session - two nodes may use one id for different layouts).
+	Rotate int
 }
 
 func ie(name string, ent uint32) *entities.InfoElement {
@@ -196,6 +199,10 @@ func (r Rec) Elements() []entities.InfoElementWithValue {
 			}
 		}
 		el = kept
+	}
+	if n := len(el); n > 0 && r.Rotate%n != 0 {
+		k := r.Rotate % n
+		el = append(append(el[:0:0], el[k:]...), el[:k]...)
 	}
 	return el
 }
